@@ -61,6 +61,9 @@ def check(pc, goal, timeout_ms=None, quick=False):
     A candidate model never decides anything by itself: the caller replays it on the real code."""
     from .engine import has_quantifier
     from .state import HEAP_AXIOMS
+    from .speceval import GLOBAL_AXIOMS
+    from .state import BOX_AXIOMS
+    pc = list(pc) + list(GLOBAL_AXIOMS.values()) + list(BOX_AXIOMS.values())
     timeout_ms = timeout_ms or Z3_TIMEOUT_MS
     t0 = time.time()
     qf = [p for p in pc if not has_quantifier(p)]
@@ -87,6 +90,8 @@ def check(pc, goal, timeout_ms=None, quick=False):
     if r == z3.sat:
         return VIOLATED, s.model(), "z3", dt, "sat", None
     reason = s.reason_unknown()
+    if quick:
+        return UNDECIDED, None, "z3", time.time() - t0, "z3 unknown (%s); short budget" % reason, cand
     # model search with bounded-quantifier validation (sound: the returned model is checked
     # against every hypothesis that was left out of the query)
     try:
@@ -410,7 +415,7 @@ def verify_function(key, prop_prefix="", replayer=None, only_labels=None) -> lis
     # obligation on it would be discharged for the wrong reason
     vac = []
     for kind, st2, payload in exits:
-        stt, _, _, _, txt, _ = check(st2.pc, z3.BoolVal(False), timeout_ms=2000)
+        stt, _, _, _, txt, _ = check(st2.pc, z3.BoolVal(False), timeout_ms=1000, quick=True)
         if stt == DISCHARGED:
             vac.append("/".join(st2.trace[-6:]) or "<straight-line>")
     if vac:
@@ -454,6 +459,8 @@ def frame_allowed(E: Engine, c: S.Contract, env):
         if isinstance(n, _ast.Call) and isinstance(n.func, _ast.Name) and n.func.id == "heap":
             add(n.args[0].value, "*")
             continue
+        if isinstance(n, _ast.Call) and isinstance(n.func, _ast.Name) and n.func.id == "fresh_heap":
+            continue       # only objects allocated during the call: never constrained by the frame check
         pointer = False
         if isinstance(n, _ast.Call) and isinstance(n.func, _ast.Name) and n.func.id == "ptr":
             pointer, n = True, n.args[0]
@@ -530,6 +537,8 @@ def exit_obligations(E: Engine, c: S.Contract, env, kind, st: State, payload):
         for cl in c.ensures:
             E.oblige(st, se.bool_of(cl.expr), "post:" + cl.label, cl.klass, "post",
                      "ensures %s" % cl.expr)
+        for i, dbg in enumerate(filter(None, os.environ.get("PYVC_DEBUG_GOALS", "").split(";;"))):
+            E.oblige(st, se.bool_of(dbg), "debug:%d" % i, "L", "post", "debug goal %s" % dbg)
         return
     # exceptional exit
     exc: Exc = payload
